@@ -1,15 +1,16 @@
 """C14 - every started node is stopped exactly once, in reverse order, whatever fails."""
 import engine_common as ec
 import engine_plugin as ep
+import c14dyn as dyn
 
 ID = "C14"
-LEAN_MODULES = ['HgVerif.Props.C14', 'HgVerif.Model.Engine', 'HgVerif.Model.Extracted']
-THEOREMS = ['HgVerif.Lifecycle.start_prefix', 'HgVerif.Lifecycle.stop_reverse_all', 'HgVerif.Lifecycle.started_stopped_once', 'HgVerif.Lifecycle.failed_start_rollback', 'HgVerif.Lifecycle.stop_faults_do_not_block', 'HgVerif.Lifecycle.first_error_wins', 'HgVerif.Lifecycle.stopLoop_no_error']
-CXX_TARGETS = ['hgv_engine']
+LEAN_MODULES = ['HgVerif.Props.C14', 'HgVerif.Model.Engine', 'HgVerif.Model.Extracted'] + list(dyn.LEAN_MODULES)
+THEOREMS = ['HgVerif.Lifecycle.start_prefix', 'HgVerif.Lifecycle.stop_reverse_all', 'HgVerif.Lifecycle.started_stopped_once', 'HgVerif.Lifecycle.failed_start_rollback', 'HgVerif.Lifecycle.stop_faults_do_not_block', 'HgVerif.Lifecycle.first_error_wins', 'HgVerif.Lifecycle.stopLoop_no_error'] + list(dyn.THEOREMS)
+CXX_TARGETS = ['hgv_engine'] + list(dyn.CXX_TARGETS)
 USES_EXTRACT = True
-RULE = 'flat graphs with 1-2 thrower nodes faulting at start / k-th evaluate / stop (incl. evaluate-fault followed by stop-fault), cleanup_on_error on/off; lifecycle observer log + in-node counters + caught exception text; non-trivial = a fault fired; distinct by program text'
-TRUSTED = ['UnwindCleanupGuard / FirstExceptionRecorder (util/scope.h) modelled as first-error-wins folds']
-ASSUMPTIONS = ['faults are std::runtime_error thrown by harness nodes']
+RULE = 'flat graphs with 1-2 thrower nodes faulting at start / k-th evaluate / stop (incl. evaluate-fault followed by stop-fault), cleanup_on_error on/off; lifecycle observer log + in-node counters + caught exception text; non-trivial = a fault fired; distinct by program text' + ' ' + dyn.RULE
+TRUSTED = ['UnwindCleanupGuard / FirstExceptionRecorder (util/scope.h) modelled as first-error-wins folds'] + list(dyn.TRUSTED)
+ASSUMPTIONS = ['faults are std::runtime_error thrown by harness nodes'] + list(dyn.ASSUMPTIONS)
 TECHNIQUE = 'Lean 4 proof (start/stop as folds with rollback and first-exception recording, for every fault assignment) + differential correspondence with fault injection + lifecycle monitor'
 LEVEL_TEXT = 'Kernel-checked for every graph size and every assignment of start/stop faults: nodes start in order and exactly a prefix starts; stop visits every started node exactly once in reverse order even when stops throw; a failed start stops exactly the started prefix in reverse; the first error is the one reported. The engine model is compared with the runtime under injected faults, and every implementation trace passes the lifecycle monitor.'
 LEVEL_NOTE = 'Trusted: Lean kernel; model tied by correspondence; nested/dynamic children are exercised by the nested programs of C09/C15.'
@@ -18,16 +19,34 @@ LEVEL_NOTE = 'Trusted: Lean kernel; model tied by correspondence; nested/dynamic
 def streams(rng, tier, seed):
     n = 200 if tier == "quick" else 5000
     progs = [ec.gen_fault(rng) for _ in range(n)]
-    return [ec.engine_stream("engine-faults", progs)]
+    return [ec.engine_stream("engine-faults", progs)] + dyn.streams(rng, tier, seed)
 
 
-monitor = ep.monitor_for(ID)
-features = ep.features
-alarm_filter = ep.alarm_filter
+_mon = ep.monitor_for(ID)
+
+
+def monitor(stream, case, out):
+    return dyn.monitor(stream, case, out) if stream.startswith("dynlife-") else _mon(stream, case, out)
+
+
+def features(stream, case, out):
+    return dyn.features(stream, case, out) if stream.startswith("dynlife-") else ep.features(stream, case, out)
+
+
+def alarm_filter(stream, case, impl_out, model_out):
+    if stream.startswith("dynlife-"):
+        return True, []
+    return ep.alarm_filter(stream, case, impl_out, model_out)
 
 
 def nontrivial(stream, case, out):
+    if stream.startswith("dynlife-"):
+        return dyn.nontrivial(stream, case, out)
     t = ec.trace_of(out)
     return "run-err" in t or "nx!" in t or "ns!" in t
 
-valid_case = ep.valid_case
+
+def valid_case(stream, case, impl_out, model_out):
+    if stream.startswith("dynlife-"):
+        return dyn.valid_case(stream, case, impl_out, model_out)
+    return ep.valid_case(stream, case, impl_out, model_out)
